@@ -21,7 +21,7 @@ CLAIMED = {
         "note": "Partial: clauses T1-T4.",
     },
     "C20": {
-        "technique": "sibling-table cross-check of the evaluator's per-instruction arms against the code generator's (HIR table extraction, operand-origin tracing), divergence check of every catch-all arm, assertion-before-access ordering; argument-position provenance in all 16 ir_function adapter instances",
+        "technique": "sibling-table cross-check of the evaluator's per-instruction arms against the code generator's (HIR table extraction, operand-origin tracing), divergence check of every catch-all arm, assertion-before-access ordering; argument-position provenance in all 16 ir_function adapter instances; frame discipline of the evaluator's variable map (saved at push_frame, restored from pop_frame)",
         "level": "Decides mirror agreement arm by arm (all Instruction variants, all IntCmp/FloatCmp rows, all arithmetic rows), loud fallbacks and checked-memory ordering; equality of results over all scripts is not decided.",
         "note": "Partial: clauses V1-V4. Memory::get's missing frame-id check is reported as a cross-reference only (no witness IR).",
     },
